@@ -53,6 +53,31 @@ Proof.
 Qed.
 Print Assumptions gob_durable_after_success.
 
+(* The per-file protocol for a LIST of members (a TrueType collection / a batch), any length: every member
+   (temporary name, font name, representation) is written into the staging directory G by the trace of
+   writeGobWithOperations (createTemp ; write ; chmod ; fsync ; close ; verify ; rename ; fsync_dir), then every
+   member is committed (rename G/n -> F/n ; fsync_dir G ; fsync_dir F).  From every safe state, for pairwise
+   distinct font names and temporary names that are not member names, the whole trace is accepted - so the
+   trichotomy holds at every crash point - and once it has run EVERY power loss leaves EVERY member's name bound
+   to its complete new bytes. *)
+Theorem collection_members_durable_after_success :
+  forall F isfont old new (G : list positive) ms st,
+  Inv F isfont old new st -> G <> F -> is_Some (s_dir st !! F) -> is_Some (s_dir st !! G) ->
+  (forall m, In m ms -> cm_tmp m <> cm_name m /\ isfont (cm_name m) = true /\ new (cm_name m) = Some (cm_data m)) ->
+  NoDup (map cm_name ms) ->
+  (forall m m', In m ms -> In m' ms -> cm_tmp m <> cm_name m') ->
+  accepts F isfont old new st (collection_trace G F ms) = true /\
+  forall m, In m ms -> forall k, exists i,
+    crash_entries F (dexec st (collection_trace G F ms)) k !! cm_name m = Some i /\
+    (exists b, crash_bytes (dexec st (collection_trace G F ms)) i (length (cm_data m)) = Some b) /\
+    forall j b, crash_bytes (dexec st (collection_trace G F ms)) i j = Some b -> b = cm_data m.
+Proof.
+  intros F isfont old new G ms st Hi HGF HF HG Hms Hnd Hdisj.
+  destruct (collection_durable F isfont old new G ms st Hi HGF HF HG Hms Hnd Hdisj) as (Ha & Hd).
+  split; [exact Ha|]. intros m Hm k. exact (durable_now_crash F _ (cm_name m) (cm_data m) k (Hd m Hm)).
+Qed.
+Print Assumptions collection_members_durable_after_success.
+
 (* The executable durability test used on recorded traces is sound: durable_now => every power loss keeps n = data. *)
 Theorem durable_now_sound :
   forall F st n data k, durable_now F st n data = true ->
